@@ -199,12 +199,13 @@ pub fn stream_values(kind: usize, raw: &[f64]) -> Vec<f64> {
                 6 => 3.0,
                 7 => (probit(u) * 3.0).exp() * 1e10,
                 8 => (u * 3.0).floor() * 0.5 + if u > 0.97 { probit(u) } else { 0.0 },
+                10 => [-2.0, -1.0, -0.0, 0.0, 1.0, 2.0][((u * 6.0) as usize).min(5)],
                 _ => -(i as f64) * 0.02 + probit(u),
             }
         })
         .collect()
 }
-pub const KINDS: usize = 10;
+pub const KINDS: usize = 11;
 
 pub fn stream_strategy(max_len: usize) -> impl Strategy<Value = QStream> {
     let lens = prop_oneof![
@@ -236,12 +237,14 @@ pub const ALPHA2: [f64; 2] = [0.0, 1.0];
 pub const ALPHA3: [f64; 3] = [-1.0, 0.0, 2.5];
 pub const ALPHA4: [f64; 4] = [0.0, 1.0, 3.0, 7.0];
 pub const ALPHA5: [f64; 5] = [-4.0, -1.0, 0.0, 0.5, 6.0];
+/// both zeros: P-square compares numerically, so -0.0 ties with a marker at +0.0 and goes to the cell above
+pub const ALPHAZ: [f64; 4] = [-1.0, -0.0, 0.0, 1.0];
 
 pub fn exhaustive_plan(cx: &Ctx) -> Vec<(&'static [f64], usize)> {
     if cx.thorough() {
-        vec![(&ALPHA2[..], 20), (&ALPHA3[..], 13), (&ALPHA4[..], 10), (&ALPHA5[..], 8)]
+        vec![(&ALPHA2[..], 20), (&ALPHA3[..], 13), (&ALPHA4[..], 10), (&ALPHA5[..], 8), (&ALPHAZ[..], 10)]
     } else {
-        vec![(&ALPHA2[..], 13), (&ALPHA3[..], 9), (&ALPHA4[..], 7), (&ALPHA5[..], 6)]
+        vec![(&ALPHA2[..], 13), (&ALPHA3[..], 9), (&ALPHA4[..], 7), (&ALPHA5[..], 6), (&ALPHAZ[..], 7)]
     }
 }
 
@@ -263,13 +266,13 @@ pub fn paper_example() -> Vec<QStream> {
 }
 
 pub fn run(cx: &Ctx) {
-    cx.set_rule("cases = (p, stream): p from {0, 1, 0.5, 0.1, 0.2, 0.25, 0.9, 0.99} or uniform in [0,1]; streams = exhaustively every stream over alphabets of 2, 3, 4 values up to a length bound (ties everywhere), random streams of 10 kinds, one in six scaled by an exact power of two 2^±100…2^±900 (normal, increasing, decreasing, small alphabet, zig-zag, trending up/down, constant, heavy-tailed x 1e10, heavy duplicates), the paper's 20 observations; after EVERY observation from the fifth on, quantile() and the publicly serialised marker heights/positions are compared with an independent transcription of Jain & Chlamtac's algorithm (tolerance max(64 ulp, 1e-10 range); comparison of a stream stops at the first decision of the reference that is within rounding of flipping). Plus the derived relation: arithmetic progressions fed increasing and decreasing are tracked within 0.10 range in both directions. Non-trivial = length >= 6, at least one marker adjustment, and a new minimum after initialisation, a tie with a marker or a linear-fallback adjustment; distinct = hash of (p bits, stream bits)");
+    cx.set_rule("cases = (p, stream): p from {0, 1, 0.5, 0.1, 0.2, 0.25, 0.9, 0.99} or uniform in [0,1]; streams = exhaustively every stream over alphabets of 2, 3, 4, 5 values (one of them {-1, -0.0, +0.0, 1}) up to a length bound (ties everywhere), random streams of 10 kinds, one in six scaled by an exact power of two 2^±100…2^±900 (normal, increasing, decreasing, small alphabet, zig-zag, trending up/down, constant, heavy-tailed x 1e10, heavy duplicates, a six-value alphabet with both signed zeros), the paper's 20 observations; after EVERY observation from the fifth on, quantile() and the publicly serialised marker heights/positions are compared with an independent transcription of Jain & Chlamtac's algorithm (tolerance max(64 ulp, 1e-10 range); comparison of a stream stops at the first decision of the reference that is within rounding of flipping). Plus the derived relation: arithmetic progressions fed increasing and decreasing are tracked within 0.10 range in both directions. Non-trivial = length >= 6, at least one marker adjustment, and a new minimum after initialisation, a tie with a marker or a linear-fallback adjustment; distinct = hash of (p bits, stream bits)");
     cx.assume("reference model: harness/src/p2ref.rs, transcribed from the 1985 paper, not from the implementation");
     cx.assume("marker state is read from the serde representation (fields q and n); if those are not present the state comparison is skipped and counted");
     cx.label("fixed");
     cx.run_list(&P2Diff, paper_example(), "paper example + monotone 1000-element streams x p grid");
     for (alpha, len) in exhaustive_plan(cx) {
-        cx.label(&format!("exhaustive-{}-values", alpha.len()));
+        cx.label(&format!("exhaustive-{}-values{}", alpha.len(), if alpha.iter().any(|a| a.to_bits() == (-0.0f64).to_bits()) { "-signed-zeros" } else { "" }));
         let total = (alpha.len() as u64).pow(len as u32) * P_GRID.len() as u64;
         let np = P_GRID.len() as u64;
         cx.run_enum(&P2Diff, total, |i| Some(QStream { p: P_GRID[(i % np) as usize], xs: alphabet_stream(alpha, len, i / np) }), &format!("all streams of length {} (every prefix checked) over {}-value alphabets x 8 values of p", len, alpha.len()));
